@@ -334,6 +334,32 @@ def rule_turn_prune_mirror(chk, prog):
             fn.loc(tops[0]), fn.loc(tops[1]), diff[0][-100:], diff[1][-100:]))
 
 
+def rule_flags_mirror(chk, prog):
+    from ..sibling.mirror import mirror_blocks_equal
+    r = chk.rule("VIS-FLAGS-MIRROR", "LineSegment::setLongRangeVisibilityFlags: the low-to-high pass (X?/Y? L flags, begin..end) and the "
+                 "high-to-low pass (H flags, rbegin..rend) are mirror images over the whole breakpoint set: a shape edge or connector "
+                 "point anywhere ahead of a vertex -- the outermost one included -- is recorded in its orthogVisPropFlags (the turn "
+                 "pruning of the search relies on these flags)", floor=1)
+    fn = prog.fn("Avoid::LineSegment::setLongRangeVisibilityFlags")
+    loops = [n for n in fn.nodes() if n.get("k") == "ForStmt"]
+    if len(loops) != 2:
+        raise AnalysisBroken("setLongRangeVisibilityFlags: expected two passes, found %d" % len(loops))
+    ok, diff = mirror_blocks_equal(loops[0], loops[1], "scan fwd/rev", abstract_std=True)
+    r.count()
+    if ok:
+        r.ok("setLongRangeVisibilityFlags passes", fn.loc(loops[0]))
+    else:
+        r.bad("setLongRangeVisibilityFlags passes", fn.loc(loops[1]), "the two passes are no longer mirror images: `...%s` vs `...%s`" % (diff[0][-110:], diff[1][-110:]))
+    # the resets between the passes
+    g_ids = {x.get("id") for x in walk(loops[1])}
+    from ..astq import writes, literal_value
+    resets = {norm(lhs) for lhs, node, op in writes(fn) if node["l"] > loops[0]["l"] and node["id"] not in g_ids and node["id"] not in {x.get("id") for x in walk(loops[0])}
+              and literal_value(node["ch"][1]) == "false"}
+    r.count()
+    (r.ok if {"seenConnPt", "seenShapeEdge"} <= resets else r.bad)("state reset between the passes", fn.loc(loops[1]),
+                                                                   "" if {"seenConnPt", "seenShapeEdge"} <= resets else "seen-flags are not reset before the reverse pass")
+
+
 def rule_inside_strict(chk, prog):
     """Node::isInsideShape decides whether a connector end point gets pass-through vertices in the orthogonal visibility graph."""
     from ..microai.interp import default_obj
@@ -408,3 +434,4 @@ def run(chk):
     rule_heuristic(chk, prog)
     rule_turn_prune(chk, prog)
     rule_turn_prune_mirror(chk, prog)
+    rule_flags_mirror(chk, prog)
